@@ -1263,7 +1263,7 @@ def legacy_upgrade_rule(repo: Repo, rep, P: str):
         rep.ok(f"{P}.R5", con, "legacy y * 0x200 + range[0]", "legacy point heights rescaled into the envelope's range", nontrivial=False)
     from .. import inline
     from ..guards import canon
-    flf = inline.flatten(repo, samp, repo.own_method(samp, "finalize_load"), exclude=("_upgrade_envelopes",))
+    flf = inline.flatten(repo, samp, repo.own_method(samp, "finalize_load", raw=True), exclude=("_upgrade_envelopes",))
     fl = norm(flf)
     guarded = False
     for n in ast.walk(flf):
